@@ -224,9 +224,46 @@ func (e Env) wire() string {
 type expect struct {
 	response  bool  // a response bearing the id must arrive (eventually)
 	codes     []int // if non-nil the response must be an error with one of these codes
+	resultOK  bool  // (with codes) an ordinary result is acceptable as well
+	anyError  bool  // (with codes) any error code is acceptable, the listed ones are merely the expected ones
 	parks     bool  // handler parks on Gate (response only after release)
 	class     string
 	malformed bool // structurally invalid or undecodable: an HTTP transport may refuse the whole POST with a 4xx
+}
+
+// answerOK judges the error code (nil: a result) of the response to a request with this expectation.
+func (x expect) answerOK(code *int) bool {
+	switch {
+	case x.codes == nil:
+		return true
+	case code == nil:
+		return x.resultOK
+	}
+	return x.anyError || slices.Contains(x.codes, *code)
+}
+
+// attribute picks, among the outstanding requests of scope, the one a response with id token tok and error
+// code (nil: a result) answers: the oldest one bearing that id - except that an ERROR arriving while the
+// oldest one is a still-parked original belongs to the pending re-use of that in-flight id (the refusal of
+// the re-use must not touch the original, whose handler has not answered yet).
+func attribute(scope []*pending, tok string, code *int) *pending {
+	var hit *pending
+	for _, p := range scope {
+		if p.done || canonical(p.tok) != tok {
+			continue
+		}
+		if hit == nil {
+			hit = p
+			if code == nil || !p.exp.parks {
+				break
+			}
+			continue
+		}
+		if p.exp.class == "inflight_id_reuse" {
+			return p
+		}
+	}
+	return hit
 }
 
 func (e Env) expectation() expect {
@@ -277,9 +314,10 @@ func (e Env) expectation0() expect {
 		}
 		return expect{response: true, class: "valid_call"}
 	case "wrongtype", "array":
-		if m == "ping" && e.Params == "wrongtype" {
-			// ping has no parameters to mis-type: params `"a string"` is still undecodable as an object
-			return expect{response: true, codes: []int{-32602}, class: "undecodable_params"}
+		if m == "ping" {
+			// ping has no parameters of its own: a server that never decodes them and just answers is as good
+			// as one that refuses `"a string"` / an array as undecodable (but error code 0 & co. stay wrong)
+			return expect{response: true, codes: []int{-32602, -32600}, resultOK: true, class: "undecodable_params"}
 		}
 		return expect{response: true, codes: []int{-32602}, class: "undecodable_params"}
 	}
@@ -432,6 +470,7 @@ func parseLine(raw json.RawMessage, lineNo int) []recvMsg {
 var theT *testing.T
 
 func run(s Script) (res vt.Result) {
+	finished := false
 	if p := vt.Bubble(theT, func() {
 		switch s.Transport {
 		case "ndjson":
@@ -439,8 +478,13 @@ func run(s Script) (res vt.Result) {
 		default:
 			res = runHTTP(s)
 		}
+		finished = true
 	}); p != "" {
-		res.Failf("bubble did not end cleanly: %s", p)
+		if !finished {
+			res.Failf("bubble did not end cleanly (the script itself got stuck): %s", p)
+		} else {
+			res.Class("teardown_leftover") // goroutines left behind after the last answer: not this property's business
+		}
 	}
 	return res
 }
@@ -541,11 +585,21 @@ func runNDJSON(s Script) (res vt.Result) {
 	synctest.Wait()
 	peer.Send(`{"jsonrpc":"2.0","method":"notifications/initialized"}`)
 	synctest.Wait()
-	if n := len(peer.Received()); n != 1 {
-		res.Failf("harness: handshake produced %d messages", n)
+	// The handshake must have produced the answer to "hs"; whatever else the server chose to send by now
+	// (a notification, a request of its own) is not judged and not counted as an answer.
+	hsAnswered := false
+	for ln, raw := range peer.Received() {
+		for _, m := range parseLine(raw, ln) {
+			if m.isResp && m.tok == `"hs"` {
+				hsAnswered = true
+			}
+		}
+	}
+	if !hsAnswered {
+		res.Failf("harness: the handshake produced no answer to initialize (%d messages)", len(peer.Received()))
 		return
 	}
-	lines := 1
+	lines := len(peer.Received())
 	gateSeq := 0
 	var pend []*pending
 	inflight := map[string]bool{} // canonical id tokens of calls awaiting a response
@@ -562,14 +616,8 @@ func runNDJSON(s Script) (res vt.Result) {
 				if !m.isResp {
 					continue // server-initiated notification/request: not our concern
 				}
-				// find the oldest pending request with this token
-				var hit *pending
-				for _, p := range pend {
-					if !p.done && canonical(p.tok) == m.tok {
-						hit = p
-						break
-					}
-				}
+				// find the pending request this response answers (see attribute)
+				hit := attribute(pend, m.tok, m.code)
 				if hit == nil {
 					res.Failf("step %d (%s): received a response with id %s that answers no outstanding request (wrong id echoed, or a second answer): %s", step, what, m.tok, m.raw)
 					return false
@@ -578,11 +626,9 @@ func runNDJSON(s Script) (res vt.Result) {
 				if hit.exp.class != "inflight_id_reuse" {
 					delete(inflight, canonical(hit.tok))
 				}
-				if hit.exp.codes != nil {
-					if m.code == nil || !slices.Contains(hit.exp.codes, *m.code) {
-						res.Failf("step %d: %s [%s] answered %s, want error code %v", step, hit.env.wire(), hit.exp.class, m.raw, hit.exp.codes)
-						return false
-					}
+				if !hit.exp.answerOK(m.code) {
+					res.Failf("step %d: %s [%s] answered %s, want error code %v", step, hit.env.wire(), hit.exp.class, m.raw, hit.exp.codes)
+					return false
 				}
 				if (m.batch >= 0) != (hit.batch >= 0) {
 					res.Failf("step %d: response %s framing does not match its request (request in batch: %v, response in array: %v)", step, m.raw, hit.batch >= 0, m.batch >= 0)
@@ -710,7 +756,8 @@ func runNDJSON(s Script) (res vt.Result) {
 							e.ID = freshID()
 							tok = e.ID
 						} else {
-							ex = expect{response: true, codes: []int{-32600}, class: "inflight_id_reuse"}
+							// refused with an error bearing the id; -32600 is what the SDK uses, the statement names no code
+							ex = expect{response: true, codes: []int{-32600}, anyError: true, class: "inflight_id_reuse"}
 							nt = true
 						}
 					}
